@@ -81,6 +81,7 @@ pub enum RK {
     SelfAbort { a: Src, m: Option<S>, handle: u16 },
     HandOff { a: Src, b: Src, c: S },
     JoinSpawn { a: Src, b: Src, n: S },
+    StreamHandOff { a: Src, c: S },
     StreamUntil { a: Src, b: Src },
     /// req a -> event; then spawns (req b with arg = value -> event)
     ChainLink { a: Src, next: Option<S> },
@@ -511,6 +512,11 @@ impl RCmd {
                     cx.eff(&mut a, Kind::Once, 0);
                     t.kind = RK::SelfAbort { a, m: None, handle: 2000 + s.id };
                 }
+                P::StreamHandOff(s, c) => {
+                    let mut a = Src::new(s);
+                    cx.eff(&mut a, Kind::Many, 0);
+                    t.kind = RK::StreamHandOff { a, c };
+                }
                 P::JoinSpawn(s, u, n) => {
                     let (mut a, mut b) = (Src::new(s), Src::new(u));
                     cx.eff(&mut a, Kind::Once, 0);
@@ -774,6 +780,24 @@ impl RCmd {
                 St::G => Run::Finished,
                 _ => Run::Pending,
             },
+            RK::StreamHandOff { a, c } => {
+                if !a.q.is_empty() {
+                    // first item: event; the rest of the stream (with anything already queued) moves
+                    // to a new task
+                    let v = a.q.remove(0);
+                    cx.got(a.site, v);
+                    let moved = a.clone();
+                    self.spawnq.push(task(RK::Stream { a: moved, map: false }));
+                } else if a.st == St::G {
+                    return Run::Finished;
+                } else {
+                    return Run::Pending;
+                }
+                let mut cs = Src::new(*c);
+                cx.eff(&mut cs, Kind::Once, 0);
+                t.kind = RK::Req { a: cs, map: false };
+                Run::Pending
+            }
             RK::JoinSpawn { a, b, n } => {
                 if let St::V(w) = b.st {
                     // the second branch runs on: it spawns, whatever becomes of the join
@@ -945,7 +969,7 @@ impl RK {
         match self {
             RK::Req { a, .. } | RK::Stream { a, .. } | RK::ChildReq { a } | RK::StreamChild { a }
             | RK::Burst { a, .. } | RK::SpawnAfter { a, .. } | RK::Producer { a, .. } | RK::SibAborter { a, .. } | RK::SelfAbort { a, .. }
-            | RK::ChainLink { a, .. } => vec![a],
+            | RK::ChainLink { a, .. } | RK::StreamHandOff { a, .. } => vec![a],
             RK::Aborter { b, .. } | RK::AwaitJoinReq { b, .. } => vec![b],
             RK::ReqReq { a, b } | RK::ReqStream { a, b, .. } | RK::StreamReq { a, b, .. } | RK::Join { a, b }
             | RK::Select { a, b } | RK::HandOff { a, b, .. } | RK::StreamUntil { a, b } | RK::JoinSpawn { a, b, .. } => vec![a, b],
@@ -962,7 +986,7 @@ impl RK {
         match self {
             RK::Req { a, .. } | RK::Stream { a, .. } | RK::ChildReq { a } | RK::StreamChild { a }
             | RK::Burst { a, .. } | RK::SpawnAfter { a, .. } | RK::Producer { a, .. } | RK::SibAborter { a, .. } | RK::SelfAbort { a, .. }
-            | RK::ChainLink { a, .. } => vec![a],
+            | RK::ChainLink { a, .. } | RK::StreamHandOff { a, .. } => vec![a],
             RK::Aborter { b, .. } | RK::AwaitJoinReq { b, .. } => vec![b],
             RK::ReqReq { a, b } | RK::ReqStream { a, b, .. } | RK::StreamReq { a, b, .. } | RK::Join { a, b }
             | RK::Select { a, b } | RK::HandOff { a, b, .. } | RK::StreamUntil { a, b } | RK::JoinSpawn { a, b, .. } => vec![a, b],
